@@ -103,7 +103,72 @@ def dom(par, kw):
     return True
 
 
+# ------------------------------------------------------------------------------------------------------------------
+# which reads enter the clusters (first loop of construct_monoexon_novel): follow-up of 7594462
+
+def mirror_read(L, r):
+    return {"id": r["id"], "iv": list(T.mirror_iv(L, tuple(r["iv"]))), "polya": T.mirror_pos(L, r["polyt"]),
+            "polyt": T.mirror_pos(L, r["polya"])}
+
+
+def real_votes(kw):
+    """the real construct_monoexon_novel up to the clustering: ids of the reads handed to cluster_monoexons for the polyA
+    and for the polyT side (cluster_monoexons is replaced by a recorder that returns no cluster)"""
+    vlib.repo_on_path()
+    import src.graph_based_model_construction as GB
+    import src.polya_finder as PF
+    c = GB.GraphBasedModelConstructor.__new__(GB.GraphBasedModelConstructor)
+    c.transcript_model_storage = []
+    c.params = types.SimpleNamespace(min_novel_count=1, apa_delta=0, delta=0)
+    c.intron_graph = types.SimpleNamespace(outgoing_edges={}, incoming_edges={})
+    seen = []
+
+    def recorder(grouped):
+        seen.append(sorted(a.read_id for reads in grouped.values() for a in reads))
+        return {}
+    c.cluster_monoexons = recorder
+    reads = [types.SimpleNamespace(read_id=r["id"], corrected_exons=[tuple(r["iv"])], read_group="g",
+                                   polya_info=PF.PolyAInfo(r["polya"], r["polyt"], -1, -1)) for r in kw["reads"]]
+    c.construct_monoexon_novel(reads)
+    return {"polya": seen[0], "polyt": seen[1]}
+
+
+def _votes_tin(par, kw):
+    return {"reads": [mirror_read(par["L"], r) for r in kw["reads"]]}
+
+
+def _votes_tout(par, kw, v):
+    return {"polya": sorted(v["polyt"]), "polyt": sorted(v["polya"])}
+
+
+def _votes_eq(a, b):
+    if vlib.is_err(a) or vlib.is_err(b):
+        return vlib.same(a, b)
+    return sorted(a["polya"]) == sorted(b["polya"]) and sorted(a["polyt"]) == sorted(b["polyt"])
+
+
+def dom_votes(par, kw):
+    L = par["L"]
+    return all(p == -1 or L + 1 - p != -1 for r in kw["reads"] for p in (r["polya"], r["polyt"]))
+
+
+BOTH_TAILS = {"reads": [{"id": k, "iv": [5000 + k, 5600], "polya": 5600, "polyt": 4998} for k in range(6)]}
+
+
+def shared_read_problem(kw):
+    """interface hypothesis of mirror_dual_constructMonoNovel monitored on the REAL code (Props/C11MonoNovel.lean
+    `voters_exclusive`): no read is handed to a polyA cluster AND a polyT cluster -- otherwise, since 7594462, two models of
+    equal support are built from the same reads and every such read is assigned to two models.  -> detail or None"""
+    v = real_votes(kw)
+    shared = sorted(set(v["polya"]) & set(v["polyt"]))
+    return ("read(s) %s are handed to a polyA cluster AND a polyT cluster" % shared[:6]) if shared else None
+
+
 RELS = [
+    X.Rel("M.mono_votes", "mirror_dual_votersOf",
+          lambda kw: vlib.req("C11.X.mono_votes", variant="fixed", **kw), real_votes,
+          tin=_votes_tin, tout=_votes_tout, domain=dom_votes, eq=_votes_eq,
+          nontrivial=lambda kw, v: not vlib.is_err(v) and bool(v["polya"]) and bool(v["polyt"])),
     X.Rel("M.mono_novel", "mirror_dual_constructMonoNovel",
           lambda kw: vlib.req("C11.X.mono_novel", variant="fixed", **kw), real_mono_novel,
           tin=_tin, tout=_tout, domain=dom, eq=_eq,
@@ -124,10 +189,25 @@ def _cluster(rng, forward, base, support):
     return {"three": end if forward else start, "reads": reads}
 
 
+def vote_cases(rng, n):
+    out = [("M.mono_votes", {"L": 20000}, BOTH_TAILS)]
+    for _ in range(n):
+        reads = []
+        for i in range(rng.randint(1, 8)):
+            a = rng.choice([1000, 5000]) + rng.randint(0, 50)
+            b = a + rng.choice([150, 600])
+            kind = rng.choice(["a", "t", "both", "both", "none"])
+            reads.append({"id": i, "iv": [a, b], "polya": b + rng.choice([0, 0, 3]) if kind in ("a", "both") else -1,
+                          "polyt": a - rng.choice([0, 2, 2]) if kind in ("t", "both") else -1})
+        out.append(("M.mono_votes", {"L": rng.choice([20000, 12345])}, {"reads": reads}))
+    return out
+
+
 def cases(ctx):
     rng = ctx.rng
     quick = ctx.tier == "quick"
-    out = [("M.mono_novel", {"L": 20000}, G2_INPUT),
+    out = vote_cases(rng, 300 if quick else 3000)
+    out += [("M.mono_novel", {"L": 20000}, G2_INPUT),
            ("M.mono_novel", {"L": 20000}, dict(G2_INPUT, polya=G2_INPUT["polyt"], polyt=G2_INPUT["polya"])),
            # equal support on both strands: neither removes the other (ties do not compete)
            ("M.mono_novel", {"L": 20000}, dict(G2_INPUT, polyt=[{"three": 5100, "reads": [[5100, 5750]] * 3}]))]
@@ -160,6 +240,11 @@ def transformation_checks(ctx):
         m = {"forward": fw, "exons": [[10, 20], [30, 45]]}
         reqs.append(("T.mirror_mmodel", dict(m, L=L)))
         expect.append(mirror_mmodel(L, m))
+    for _ in range(10):
+        r = {"id": rng.randint(0, 9), "iv": [100, 400], "polya": rng.choice([-1, 400, 403]), "polyt": rng.choice([-1, 98])}
+        L = rng.choice([1000, 20000])
+        reqs.append(("T.mirror_read", dict(r, L=L)))
+        expect.append(mirror_read(L, r))
     outs = ctx.driver.run([vlib.req("C11." + op, **kw) for op, kw in reqs])
     for (op, kw), mo, exp in zip(reqs, outs, expect):
         ctx.evaluations += 1
